@@ -8,7 +8,8 @@ case = {"rules": [rule...], "pipe": False|True|"state", "fmt": "default"|"test"|
  "sf" (field name src | dst) for the pipeline "state", whose items decide on per-rule pipeline state
  detection rule   {"k": "d", "conds": [c...], "form": "list"|"and"|"or"|"1of", "stage": "ok"|"pipe"|"fin"|"crash", "fld": 0..3}
       c in "ok" | "gok" (two comparisons) | "ph" (unresolved placeholder) | "gph" (group: fine comparison, then placeholder)
-           | "type" (keyword boolean) | "cond" (condition names a missing detection); prefix "n" = used below a NOT
+           | "same" / "sel" (selection 0 again / a selector meaning selection 0) | "ma" / "mb" (fields mapped to one)
+           | "e1" / "e2" (values made equal by the query post-processing) | "type" (keyword boolean) | "cond" (condition names a missing detection); prefix "n" = used below a NOT
  "noteq": the backend class has convert_not_as_not_eq = True (negation rendered with != / not_* expressions)
  correlation rule {"k": "c", "refs": [positions], "gen": bool, "stage": "ok"|"pipe"|"fin"|"crash"}
 Rule number i is named r<i>; a rule with "as": j is the same document as rule j repeated (same name, title, content).
@@ -22,7 +23,8 @@ from sigma.processing.pipeline import ProcessingItem, ProcessingPipeline, QueryP
 from sigma.processing.transformations import (FieldMappingTransformation, RuleFailureTransformation,
                                               SetStateTransformation, StrictFieldMappingFailure)
 from sigma.processing.transformations.base import PreprocessingTransformation
-from sigma.processing.postprocessing import EmbedQueryTransformation, QueryPostprocessingTransformation
+from sigma.processing.postprocessing import (EmbedQueryTransformation, QueryPostprocessingTransformation,
+                                             ReplaceQueryTransformation)
 from sigma.processing.conditions import (RuleAttributeCondition, LogsourceCondition, RuleProcessingStateCondition,
                                          RuleProcessingItemAppliedCondition)
 
@@ -66,6 +68,14 @@ def rule_doc(i, r, names, force_nogen=False):
         if c == "ok":
             # plain string (eq expression) / prefix match (startswith expression) / number
             det[sel] = {fld: "v%d" % i} if k % 3 == 0 else {fld: "v%d%d*" % (i, k)} if k % 3 == 1 else {fld: i * 10 + k}
+        elif c == "same":             # the same selection as condition 0 once more: equal queries
+            sel = "s0"
+        elif c == "sel":              # a selector that means exactly selection 0: equal queries
+            sel = "1 of s0*"
+        elif c in ("ma", "mb"):       # different fields; the user pipeline maps both to ip: equal queries after mapping
+            det[sel] = {"sa" if c == "ma" else "sb": "m%d" % i}
+        elif c in ("e1", "e2"):       # different values; the query post-processing of the pipeline drops the digit after '#':
+            det[sel] = {fld: "e%d#%s" % (i, c[1])}     # equal after finalisation only
         elif c == "gok":              # a group of two comparisons
             det[sel] = {fld: "w%d%d" % (i, k), "y": "*z%d" % k}
         elif c == "ph":
@@ -77,7 +87,7 @@ def rule_doc(i, r, names, force_nogen=False):
         elif c == "cond":
             det[sel] = {fld: 1}
             sel = "missing%d" % k
-        conds.append("not " + sel if neg else sel)
+        conds.append("not (%s)" % sel if neg and " " in sel else "not " + sel if neg else sel)
     form = r.get("form", "list")
     if form == "list" or len(conds) == 1:
         cond = conds if len(conds) > 1 else conds[0]
@@ -105,7 +115,7 @@ def make_pipeline(case, names):
         # every failure / success decision below reads per-rule pipeline state (field mapping tracking, state
         # dictionary, applied-item tracking) that ProcessingPipeline.apply resets for each rule
         alpha = lambda: [LogsourceCondition(product="alpha")]
-        items = [ProcessingItem(FieldMappingTransformation({"src": "dst"}), rule_conditions=alpha(), identifier="map_alpha"),
+        items = [ProcessingItem(FieldMappingTransformation({"src": "dst", "sa": "ip", "sb": "ip"}), rule_conditions=alpha(), identifier="map_alpha"),
                  ProcessingItem(SetStateTransformation("index", "A"), rule_conditions=alpha(), identifier="set_alpha"),
                  ProcessingItem(StrictFieldMappingFailure(), rule_conditions=[LogsourceCondition(service="strict")],
                                 identifier="strict"),
@@ -116,9 +126,10 @@ def make_pipeline(case, names):
                                 rule_conditions=[LogsourceCondition(service="gapplied"),
                                                  RuleProcessingItemAppliedCondition("map_alpha")])]
     else:
-        items = [ProcessingItem(FieldMappingTransformation({"f": ["f1", "f2"]})),
+        items = [ProcessingItem(FieldMappingTransformation({"f": ["f1", "f2"], "sa": "ip", "sb": "ip"})),
                  ProcessingItem(SetStateTransformation("index", "win"))]
-    post = [QueryPostprocessingItem(EmbedQueryTransformation(prefix="<", suffix=">"))]
+    post = [QueryPostprocessingItem(ReplaceQueryTransformation("#[0-9]", "#")),
+            QueryPostprocessingItem(EmbedQueryTransformation(prefix="<", suffix=">"))]
     for i, r in enumerate(case["rules"]):
         cond = [RuleAttributeCondition("name", names[i])]
         if r.get("stage") == "pipe":
